@@ -33,7 +33,27 @@ def base_case(
     specs = gen.gen_world(rng, flyers=rng.choice([0, 0, 1]) if flyers is None else flyers, p_async=p_async)
     specs["sigS"] = {"kind": "signal", "initial": 0}
     pg = gen.PlanGen(rng, specs)
-    body = pg.generic(**(plan_opts or {}))
+    plan_opts = dict(plan_opts or {})
+    builtin = plan_opts.pop("builtin", 0.0)  # only the generic interruption families ask for bluesky's own plans
+    prelude = plan_opts.pop("prelude", 0.0)
+    preprocessors = []
+    if rng.random() < builtin:
+        # bluesky's own plans (stage/run decorators, per-step checkpoints), optionally under the SupplementalData
+        # preprocessor (baseline readings at both ends of the run, monitors and flyers around it)
+        body = [gen.builtin_plan(rng, specs)]
+        if rng.random() < 0.3:
+            body.append(gen.builtin_plan(rng, specs))
+        if rng.random() < 0.5:
+            sd = {"name": "SupplementalData", "baseline": [], "monitors": [], "flyers": []}
+            if pg.motors and rng.random() < 0.6:
+                sd["baseline"] = [{"dev": pg.motors[-1]}]
+            if rng.random() < 0.5:
+                sd["monitors"] = [{"dev": "sig1"}]
+            if pg.flyers and rng.random() < 0.5 and not any(n.get("name") == "fly" for n in body):
+                sd["flyers"] = [{"dev": pg.flyers[0]}]
+            preprocessors.append(sd)
+    else:
+        body = pg.generic(**plan_opts)
     S = pg.S
     case = {
         "prop": pid,
@@ -45,6 +65,8 @@ def base_case(
         "script": [],
     }
     case["re"].update(re_opts or {})
+    if preprocessors and "preprocessors" not in case["re"]:
+        case["re"]["preprocessors"] = preprocessors
     if rng.random() < suspender:
         kw = {"sleep": rng.choice([0, 0.5, 2.0])}
         case["suspenders"]["s0"] = {"cls": "SuspendBoolHigh", "signal": "sigS", "kwargs": kw}
@@ -57,6 +79,14 @@ def base_case(
             main["subs"] = {rng.choice(["all", "event", "stop"]): ["cbT"]}
         if rng.random() < 0.4:
             body.insert(0, msg(S, "subscribe", None, {"cb": "cbP"}, rng.choice(["all", "event"]), save="tokP"))
+    if prelude > rng.random():
+        # an earlier call on the same engine that ended with its checkpoint cleared (and, sometimes, a deferred
+        # pause request still pending): none of that may leak into the main call
+        pre = [msg(S, "checkpoint"), msg(S, "null"), msg(S, "clear_checkpoint"), msg(S, "null")]
+        step = {"do": "call", "plan": pre, "tag": "prelude"}
+        if rng.random() < 0.4:
+            step["inject"] = [{"id": "pd", "at": {"msg": 3, "plus": 0}, "do": "dpause"}]
+        case["script"].append(step)
     case["script"].append(main)
     if followups:
         case["script"].append({"do": "call", "plan": [msg(S, "null")], "tag": "followup-null"})
@@ -153,9 +183,14 @@ def add_device_faults(rng, case, dry_view, k=1, kinds=("raise", "status_fail")):
     return chosen
 
 
+WINDOW_OF = {"pause": "pausing", "dpause": "pausing", "abort": "aborting", "stop": "stopping", "halt": "halting", "trip": "suspending"}
+
+
 def interruption_cases(pid, seed, tier, *, K=(10, 16), kinds=None, dev_faults=0.0, decisions=None, rng=None, base=None, **base_opts):
     rng = rng or gen.rng_for(pid, seed)
-    base = base or base_case(pid, seed, rng, **base_opts)
+    if base is None:
+        base_opts["plan_opts"] = {"builtin": 0.2, "prelude": 0.15, **(base_opts.get("plan_opts") or {})}
+        base = base_case(pid, seed, rng, **base_opts)
     dry, dv, n = dry_run(base)
     yield base
     ci = main_index(base)
@@ -170,6 +205,11 @@ def interruption_cases(pid, seed, tier, *, K=(10, 16), kinds=None, dev_faults=0.
         c = copy.deepcopy(base)
         c["variant"] = j
         inj = gen.gen_injections(rng, n, kinds=kinds, k=rng.choice([1, 1, 2, 2, 3]))
+        if inj and inj[0]["do"] in WINDOW_OF and rng.random() < 0.3:
+            # a further request placed inside the transient state the first one creates (pausing, suspending,
+            # aborting/stopping/halting while the clean-up runs): windows a few handles wide
+            win = WINDOW_OF[inj[0]["do"]]
+            inj.append({"id": "w0", "at": {"state": win, "plus": rng.choice([0, 0, 1, 2, 3, 6])}, "do": rng.choice(kinds)})
         for i in inj:
             if i["do"] == "trip":
                 i["args"] = trip_args(rng)
@@ -194,6 +234,39 @@ def interruption_cases(pid, seed, tier, *, K=(10, 16), kinds=None, dev_faults=0.
         yield c
     if dev_faults > 0:
         yield from engine_side_cases(rng, base, dv)
+        yield from pause_bookkeeping_cases(rng, base, dv, n)
+
+
+def pause_bookkeeping_cases(rng, base, dv, n, k=2):
+    """A device error inside the engine's own pause bookkeeping (removing the monitors, pause() of a Pausable
+    device) while a pause takes effect, and a terminating request right behind it: the error leaves the message
+    loop with the plan still on the stack, the request meets the clean-up."""
+    ci = main_index(base)
+    spots = []  # (device, method, fault occurrence, message index after which the pause makes the engine call it)
+    for e in dv.of("dev"):
+        if e.d["method"] == "subscribe" and e.d.get("cb") == "RE.monitor" and "occ" in e.d:
+            cl = sum(1 for x in dv.of("dev") if x.d["dev"] == e.d["dev"] and x.d["method"] == "clear_sub" and x.seq < e.seq)
+            spots.append((e.d["dev"], "clear_sub", cl, e))
+    ms = dv.of("msg")
+    for dev, spec in sorted(base["devices"].items()):
+        if spec["kind"] in ("pdet", "pmotor") and any(e.d["dev"] == dev for e in dv.of("dev")):
+            first = next(e for e in dv.of("dev") if e.d["dev"] == dev)
+            spots.append((dev, "pause", 0, first))
+    for j, (dev, meth, occ, ev) in enumerate(rng.sample(spots, min(k, len(spots)))):
+        later = [m.d["n"] for m in ms if m.seq > ev.seq and m.d["n"] is not None]
+        later = [x for x in later if x <= (later[0] + 6 if later else 0)]
+        if not later:
+            continue
+        c = copy.deepcopy(base)
+        c["variant"] = f"pause-bookkeeping-{dev}.{meth}"
+        c["devices"][dev].setdefault("faults", {})[f"{meth}#{occ}"] = {"kind": "raise", "exc": "RuntimeError"}
+        c["script"][ci]["inject"] = [
+            {"id": "pb", "at": {"msg": rng.choice(later), "plus": rng.choice([0, 1])}, "do": "pause"},
+            {"id": "pt", "at": {"state": "pausing", "plus": rng.choice([0, 1, 2, 3, 4, 6])}, "do": rng.choice(["abort", "stop", "halt", "abort"])},
+        ]
+        c["script"][ci]["decisions"] = [{"do": rng.choice(["resume", "abort"])}]
+        c["script"][ci]["settle"] = "idle"
+        yield c
 
 
 def resume_window_cases(pid, seed, tier, *, K=(4, 10)):
